@@ -26,6 +26,8 @@ def _reexec_if_needed():
         env["PYTHONHASHSEED"] = "0"
         env["PYTHONDONTWRITEBYTECODE"] = "1"
         os.execve(sys.executable, [sys.executable, "-m", "vf.check"] + sys.argv[1:], env)
+    if "--shard" in sys.argv and (os.environ.get("PYTHONHASHSEED") or "").isdigit():
+        return  # a shard: the parent chose this interpreter's hash seed
     if os.environ.get("PYTHONHASHSEED") != "0":
         env = dict(os.environ)
         env["PYTHONHASHSEED"] = "0"
@@ -43,6 +45,8 @@ def run_shard(prop, tier, seed, shard, nshards, out_path, replay=None):
     mod = _load(prop)
     cap = getattr(mod, "TIME_CAP", {}).get(tier)
     R = core.Run(prop, tier, seed, shard, nshards, time_cap=cap)
+    R.notes["set:interpreter_hash_seeds"] = [int(os.environ.get("PYTHONHASHSEED", "0") or 0)]
+    R.notes["set:shards_run_with_python_O"] = [shard] if sys.flags.optimize else []
     core.install_socket_audit()
     core.install_reach_monitor(os.path.join(os.path.abspath(os.environ.get("VERIF_REPO", "/repo")), "src"))
     try:
@@ -104,11 +108,26 @@ def main():
     procs = []
     child_env = dict(os.environ)
     child_env.update(getattr(mod, "CHILD_ENV", {}))
+    replay_hashseed = None
+    replay_optimise = False
+    if args.replay:
+        try:
+            with open(args.replay) as fh:
+                rj = json.load(fh)
+            replay_hashseed = str(rj.get("hashseed", "0"))
+            replay_optimise = bool(rj.get("optimise"))
+        except (OSError, ValueError):
+            replay_hashseed = "0"
     try:
         for i in range(nshards):
+            # str/bytes hashing (set and dict iteration order) is a dimension of the
+            # workload: every shard's interpreter gets its own, reproducible hash seed
+            child_env = dict(child_env, PYTHONHASHSEED=replay_hashseed if replay_hashseed is not None else str((seed * 1009 + i) % 4294967295))
             out = os.path.join(work, "shard%d.json" % i)
-            cmd = [
-                sys.executable,
+            # assert statements are stripped under "python -O": the last shard's
+            # interpreter runs that way (recorded in the evidence and in replays)
+            optimise = (replay_optimise if args.replay else (nshards > 1 and i == nshards - 1))
+            cmd = [sys.executable] + (["-O"] if optimise else []) + [
                 "-m",
                 "vf.check",
                 prop,
